@@ -148,10 +148,10 @@ LEVEL_TEXT = {
 }
 
 PREDS = {
-    "C05": ["C05_AtMostOnce", "C05_StopNilDrainedNow", "C05_NoSilentDrop"],
+    "C05": ["C05_AtMostOnce", "C05_StopNilDrainedNow", "C05_NoSilentDrop", "C05_ReceivingCallersAnswered"],
     "C06": ["C06_AckNilDurable", "C06_AckErrAbsent", "C06_NeverTwiceVisible", "C06_RejectLeavesNoTrace", "C06_RefusedAbsent"],
     "C07": ["C07_AckOrder"],
-    "C08": ["C08_RefuseAfterStop", "C08_NoLateStoreWork", "C08_StopReturnsByDeadline", "C08_StopLatency", "C08_WaitersTold"],
+    "C08": ["C08_RefuseAfterStop", "C08_NoLateStoreWork", "C08_StopReturnsByDeadline", "C08_StopLatency", "C08_WaitersTold", "C08_StopNilOnlyAfterAnswered"],
     "C09": ["C09_Backpressure", "C09_CanceledCallersReturn"],
     "C10": ["C10_LimitFlushImmediate", "C10_TimeFlush", "C10_TimedAllAnswered"],
 }
@@ -159,7 +159,7 @@ PREDS = {
 # program families (name prefix) that exercise each property
 RELEVANT = {
     "C05": None, "C06": None, "C07": ["A", "A2", "A3", "B2", "C", "F", "S", "L"],
-    "C08": ["A", "B", "B2", "B3", "D", "D2", "D3", "S", "P"], "C09": ["P", "D", "D2", "D3"], "C10": ["L", "T"],
+    "C08": ["A", "B", "B2", "B3", "D", "D2", "D3", "D4", "E", "E2", "S", "P"], "C09": ["P", "D", "D2", "D3"], "C10": ["L", "T"],
 }
 
 
